@@ -775,7 +775,23 @@ def splice_body(em, body, c, fnid):
         if where == "before":
             add_ins(pos, ("raw", lines))
         else:
-            add_ins(pos + len(pat), ("raw", lines))
+            end = pos + len(pat)
+            if pat[-1] not in (";", "}", "{"):
+                # the pattern is a statement prefix: extend to the end of that statement (next `;` at bracket depth 0)
+                depth = 0
+                while end < len(body):
+                    t = body[end]
+                    if t in rtok.OPEN:
+                        depth += 1
+                    elif t in rtok.CLOSE:
+                        if depth == 0:
+                            break
+                        depth -= 1
+                    elif t == ";" and depth == 0:
+                        end += 1
+                        break
+                    end += 1
+            add_ins(end, ("raw", lines))
     # 2. emit: render token chunks between insertion points
     cuts = sorted(ins_before)
     prev = 0
